@@ -9,7 +9,8 @@ From RJ Require Import Base.Prelude Base.OrderedPlan Model.Settings Model.Core M
 Definition cmd_states (fl : flavour) (st : dstate) (c : cmd) : list dstate :=
   match c with
   | CCreateOrUpdateFile p data set_mt more =>
-      if refuses st p then [fst (doer_exec fl st c)]
+      if blocked_at st p then [fst (doer_exec fl st c)]
+      else if refuses st p then [fst (doer_exec fl st c)]
       else
         let st0 := with_failed st (if more then Some p else None) in
         match open_for_write st0 p with
@@ -166,6 +167,7 @@ Qed.
 (* One chunk command from any phase: every observable state is safe (unless a Through event was logged),
    and the transfer ends up in a phase again - or, for the last chunk, in a safe final state. *)
 Lemma chunk_step done st data set_mt more :
+  blocked_at st p = false ->
   phase done st ->
   (more = true -> set_mt = None) ->
   (more = false -> set_mt = Some mt /\ concat (done ++ [data]) = full) ->
@@ -175,7 +177,7 @@ Lemma chunk_step done st data set_mt more :
      if more then phase (done ++ [data]) (fst (doer_exec fl st c))
      else safe (fst (doer_exec fl st c)) /\ d_open (fst (doer_exec fl st c)) = None).
 Proof.
-  intros Hph Hm1 Hm0 c. subst c. cbn [cmd_states doer_exec].
+  intros Hb Hph Hm1 Hm0 c. subst c. cbn [cmd_states doer_exec]. rewrite Hb.
   pose proof (phase_safe done st Hph) as Hsafe0.
   assert (Hfr0 : forall q, q <> p -> fget (d_fs st) q = fget f0 q) by (destruct Hsafe0; assumption).
   assert (Hval0 : fget (d_fs st) p = v0 \/ exists k d, fget (d_fs st) p = Some (NFile (TNow k) d)).
@@ -240,7 +242,8 @@ Lemma cmd_states_chunk_events fl st p data set_mt more s :
   In s (cmd_states fl st (CCreateOrUpdateFile p data set_mt more)) -> exists l, d_events s = d_events st ++ l.
 Proof.
   pose proof (doer_exec_events fl st (CCreateOrUpdateFile p data set_mt more)) as Hfin.
-  cbn [cmd_states]. destruct (refuses st p); [intros [<-|[]]; exact Hfin|].
+  cbn [cmd_states]. destruct (blocked_at st p); [intros [<-|[]]; exact Hfin|].
+  destruct (refuses st p); [intros [<-|[]]; exact Hfin|].
   set (st0 := with_failed st (if more then Some p else None)).
   assert (Hop : forall st1, open_for_write st0 p = OpOutside st1 \/ open_for_write st0 p = OpFile st1 ->
                   exists l, d_events st1 = d_events st ++ l).
@@ -306,7 +309,7 @@ Lemma do_step_d r s :
   rs_d (do_step fl ft r s) =
   match s with
   | SrcFetch _ => rs_d r
-  | DestCmd c => if stopped r c then rs_d r else if injected r c then rs_d r else fst (doer_exec fl (rs_d r) c)
+  | DestCmd c => if stopped r c then rs_d r else if injected r c then inj_state (rs_d r) c else fst (doer_exec fl (rs_d r) c)
   end.
 Proof.
   unfold do_step, stopped, injected. destruct s as [c|q]; [|reflexivity]. cbv zeta.
@@ -315,10 +318,40 @@ Proof.
   destruct (snd (doer_exec fl (rs_d r) c)); reflexivity.
 Qed.
 
-Lemma run_step_d r s :
-  rs_d (run_step fl ft r s) = match executes r s with Some c => fst (doer_exec fl (rs_d r) c) | None => rs_d r end.
+(* the doer's state after a step in which it executes nothing: unchanged, except that an injected failure of
+   a deletion is remembered as a failed deletion *)
+Definition idle_d (r : rstate) (s : bstep) : dstate :=
+  if rs_srcfail r then rs_d r else
+  match rs_budget r with
+  | Some O => rs_d r
+  | _ => match s with
+         | SrcFetch _ => rs_d r
+         | DestCmd c => if stopped r c then rs_d r else if injected r c then inj_state (rs_d r) c else rs_d r
+         end
+  end.
+
+Lemma inj_state_same st c : d_fs (inj_state st c) = d_fs st /\ d_open (inj_state st c) = d_open st /\
+  d_events (inj_state st c) = d_events st /\ d_anc (inj_state st c) = d_anc st.
+Proof. destruct c; repeat split; reflexivity. Qed.
+Lemma idle_same r s : d_fs (idle_d r s) = d_fs (rs_d r) /\ d_open (idle_d r s) = d_open (rs_d r) /\
+  d_events (idle_d r s) = d_events (rs_d r) /\ d_anc (idle_d r s) = d_anc (rs_d r).
 Proof.
-  unfold run_step, executes. destruct (rs_srcfail r); [reflexivity|].
+  unfold idle_d. destruct (rs_srcfail r); [repeat split; reflexivity|].
+  destruct (rs_budget r) as [[|k]|]; [repeat split; reflexivity| |]; (destruct s as [c|q]; [|repeat split; reflexivity]);
+    destruct (stopped r c); try (repeat split; reflexivity); destruct (injected r c); try (repeat split; reflexivity); apply inj_state_same.
+Qed.
+Lemma idle_fetch r q : idle_d r (SrcFetch q) = rs_d r.
+Proof. unfold idle_d. destruct (rs_srcfail r); [reflexivity|]. destruct (rs_budget r) as [[|k]|]; reflexivity. Qed.
+Lemma idle_chunk r c : is_chunk c = true -> idle_d r (DestCmd c) = rs_d r.
+Proof.
+  intros Hc. unfold idle_d, injected. rewrite Hc. cbn [negb]. rewrite andb_false_r. cbn [andb].
+  destruct (rs_srcfail r); [reflexivity|]. destruct (rs_budget r) as [[|k]|]; try reflexivity; destruct (stopped r c); reflexivity.
+Qed.
+
+Lemma run_step_d r s :
+  rs_d (run_step fl ft r s) = match executes r s with Some c => fst (doer_exec fl (rs_d r) c) | None => idle_d r s end.
+Proof.
+  unfold run_step, executes, idle_d. destruct (rs_srcfail r); [reflexivity|].
   destruct (rs_budget r) as [[|k]|]; [reflexivity| |]; rewrite do_step_d; destruct s as [c|q]; try reflexivity;
     destruct (stopped r c); try reflexivity; destruct (injected r c); reflexivity.
 Qed.
@@ -390,7 +423,7 @@ Proof. unfold run_steps. apply fold_left_app. Qed.
 
 Lemma run_step_events r s : exists l, d_events (rs_d (run_step fl ft r s)) = d_events (rs_d r) ++ l.
 Proof.
-  rewrite run_step_d. destruct (executes r s); [apply doer_exec_events|exists []; rewrite app_nil_r; reflexivity].
+  rewrite run_step_d. destruct (executes r s); [apply doer_exec_events|exists []; rewrite app_nil_r; apply (idle_same r s)].
 Qed.
 Lemma run_steps_events steps : forall r, exists l, d_events (rs_d (run_steps fl ft r steps)) = d_events (rs_d r) ++ l.
 Proof.
@@ -408,6 +441,15 @@ Proof.
     exists (l1 ++ l2). rewrite E2, E1, app_assoc. reflexivity.
 Qed.
 
+Lemma idle_dead r s : dead r -> idle_d r s = rs_d r.
+Proof.
+  unfold idle_d. intros Hd. destruct (rs_srcfail r) eqn:Es; [reflexivity|].
+  destruct Hd as [H|[H|(n & Hn & Hle)]]; [congruence|rewrite H; reflexivity|].
+  destruct (rs_budget r) as [[|k]|]; [reflexivity| |]; (destruct s as [c|q]; [|reflexivity]);
+    unfold stopped, injected; rewrite Hn; destruct (mutating c); cbn [andb]; try reflexivity;
+    assert (Hl : Nat.leb n (rs_mut r) = true) by (apply Nat.leb_le; exact Hle); rewrite Hl; reflexivity.
+Qed.
+
 (* once dead, the destination is frozen *)
 Lemma dead_frozen steps : forall r, dead r ->
   (forall s, In s (steps_states r steps) -> s = rs_d r) /\ rs_d (run_steps fl ft r steps) = rs_d r /\ dead (run_steps fl ft r steps).
@@ -415,7 +457,7 @@ Proof.
   induction steps as [|st rest IH]; intros r Hd; [repeat split; [intros s []|exact Hd]|].
   change (run_steps fl ft r (st :: rest)) with (run_steps fl ft (run_step fl ft r st) rest). cbn [steps_states].
   assert (Hsame : rs_d (run_step fl ft r st) = rs_d r).
-  { rewrite run_step_d. destruct (executes r st) as [c|] eqn:E; [|reflexivity].
+  { rewrite run_step_d. destruct (executes r st) as [c|] eqn:E; [|apply idle_dead; exact Hd].
     rewrite (nonmut_noop fl _ c (executes_dead r st c Hd E)). reflexivity. }
   destruct (IH (run_step fl ft r st) (dead_step r st Hd)) as (I1 & I2 & I3).
   repeat split; [|rewrite I2; exact Hsame|exact I3].
@@ -447,6 +489,33 @@ Qed.
 Lemma executes_fetch ft r q : executes ft r (SrcFetch q) = None.
 Proof. unfold executes. destruct (rs_srcfail r); [reflexivity|]. destruct (rs_budget r) as [[|k]|]; reflexivity. Qed.
 
+(* a chunk command never adds to the failed deletions; a blocked one does nothing at all *)
+Lemma open_keeps_faildel st p st1 :
+  open_for_write st p = OpFile st1 \/ open_for_write st p = OpOutside st1 -> x_faildel (d_x st1) = x_faildel (d_x st).
+Proof.
+  intros H. unfold open_for_write in H.
+  destruct H as [H|H]; repeat (break_match_hyp H; try discriminate); inversion H; subst; reflexivity.
+Qed.
+Lemma chunk_keeps_faildel fl st p data set_mt more :
+  x_faildel (d_x (fst (doer_exec fl st (CCreateOrUpdateFile p data set_mt more)))) = x_faildel (d_x st).
+Proof.
+  cbn [doer_exec]. destruct (blocked_at st p); [reflexivity|]. destruct (refuses st p); [reflexivity|].
+  set (st0 := with_failed st (if more then Some p else None)).
+  assert (H0 : x_faildel (d_x st0) = x_faildel (d_x st)) by reflexivity.
+  destruct (open_for_write st0 p) as [st1|st1|e] eqn:Eo; cbn [fst].
+  - pose proof (open_keeps_faildel st0 p st1 (or_introl Eo)) as H1.
+    rewrite fst_if. destruct (write_fails st1); cbn [fst]; [|destruct set_mt]; unfold stamp_file, write_chunk; cbn -[N.add]; congruence.
+  - pose proof (open_keeps_faildel st0 p st1 (or_intror Eo)) as H1. cbn -[N.add]. congruence.
+  - cbn -[N.add]. exact H0.
+Qed.
+Lemma blocked_same st st' p : x_faildel (d_x st') = x_faildel (d_x st) -> blocked_at st' p = blocked_at st p.
+Proof. unfold blocked_at. intros ->. reflexivity. Qed.
+Lemma blocked_chunk_noop fl st p data set_mt more :
+  blocked_at st p = true ->
+  doer_exec fl st (CCreateOrUpdateFile p data set_mt more) = (st, Some ERefused) /\
+  cmd_states fl st (CCreateOrUpdateFile p data set_mt more) = [st].
+Proof. intros H. cbn [cmd_states doer_exec]. rewrite H. split; reflexivity. Qed.
+
 (* ---- the chunks of one file, as the boss sends them ---- *)
 Section FileBlock.
 Variable fl : flavour.
@@ -460,13 +529,13 @@ Notation safe' := (safe p mt full v0 f0).
 Notation phase' := (phase p v0 f0).
 
 Lemma file_block : forall chunks done r,
-  chunks <> [] -> concat (done ++ chunks) = full -> phase' done (rs_d r) ->
+  chunks <> [] -> concat (done ++ chunks) = full -> phase' done (rs_d r) -> blocked_at (rs_d r) p = false ->
   (forall s, In s (steps_states fl ft r (chunk_cmds p mt chunks)) -> no_through (d_events s) -> safe' s) /\
   (no_through (d_events (rs_d (run_steps fl ft r (chunk_cmds p mt chunks)))) ->
    safe' (rs_d (run_steps fl ft r (chunk_cmds p mt chunks))) /\
    (d_open (rs_d (run_steps fl ft r (chunk_cmds p mt chunks))) = None \/ dead ft (run_steps fl ft r (chunk_cmds p mt chunks)))).
 Proof.
-  induction chunks as [|c rest IH]; intros done r Hne Hfull Hph; [congruence|].
+  induction chunks as [|c rest IH]; intros done r Hne Hfull Hph Hb; [congruence|].
   pose proof (phase_safe p mt full v0 f0 eq_refl done (rs_d r) Hph) as Hsafe_r.
   destruct rest as [|c2 rest'].
   - (* the last chunk *)
@@ -477,13 +546,13 @@ Proof.
     unfold step_states. rewrite run_step_d.
     destruct (executes ft r (DestCmd cmd)) as [c0|] eqn:E.
     + apply executes_some in E as E'. inversion E'; subst c0. clear E'.
-      destruct (chunk_step fl p mt full v0 f0 eq_refl done (rs_d r) c (Some mt) false Hph) as [Hs Hf];
+      destruct (chunk_step fl p mt full v0 f0 eq_refl done (rs_d r) c (Some mt) false Hb Hph) as [Hs Hf];
         [discriminate|intros _; split; [reflexivity|exact Hfull]|].
       split.
       * intros s Hin Hnt. apply Hs; [exact Hin|]. apply no_new_of_no_through; [eapply cmd_states_events; exact Hin|exact Hnt].
       * intros Hnt. destruct Hf as [Hf1 Hf2]; [apply no_new_of_no_through; [apply doer_exec_events|exact Hnt]|].
         split; [exact Hf1|left; exact Hf2].
-    + split; [intros s []|]. intros _. split; [exact Hsafe_r|]. right.
+    + rewrite (idle_chunk ft r cmd eq_refl). split; [intros s []|]. intros _. split; [exact Hsafe_r|]. right.
       apply chunk_skipped_dead; [reflexivity|exact E].
   - (* a chunk with more to follow *)
     set (cmd := CCreateOrUpdateFile p c None true).
@@ -494,23 +563,26 @@ Proof.
     pose proof (run_step_d fl ft r (DestCmd cmd)) as Hd1.
     destruct (executes ft r (DestCmd cmd)) as [c0|] eqn:E.
     + apply executes_some in E as E'. inversion E'; subst c0. clear E'.
-      destruct (chunk_step fl p mt full v0 f0 eq_refl done (rs_d r) c None true Hph) as [Hs Hf];
+      destruct (chunk_step fl p mt full v0 f0 eq_refl done (rs_d r) c None true Hb Hph) as [Hs Hf];
         [reflexivity|discriminate|].
       set (r1 := run_step fl ft r (DestCmd cmd)) in *.
       assert (Hph1 : no_through (d_events (rs_d r1)) -> phase' (done ++ [c]) (rs_d r1)).
       { intros Hnt. rewrite Hd1. rewrite Hd1 in Hnt. apply Hf. apply no_new_of_no_through; [apply doer_exec_events|exact Hnt]. }
       assert (Hfull1 : concat ((done ++ [c]) ++ c2 :: rest') = full) by (rewrite <- app_assoc; exact Hfull).
+      assert (Hb1 : blocked_at (rs_d r1) p = false).
+      { rewrite Hd1. unfold cmd. rewrite (blocked_same (rs_d r) _ p (chunk_keeps_faildel fl (rs_d r) p c None true)). exact Hb. }
       split.
       * intros s Hin Hnt. apply in_app_or in Hin as [Hin|Hin].
         -- apply Hs; [exact Hin|]. apply no_new_of_no_through; [eapply cmd_states_events; exact Hin|exact Hnt].
         -- destruct (steps_states_events fl ft _ _ _ Hin) as (l & El).
            assert (Hnt1 : no_through (d_events (rs_d r1))) by (rewrite El in Hnt; eapply nt_prefix; exact Hnt).
-           destruct (IH (done ++ [c]) r1 ltac:(discriminate) Hfull1 (Hph1 Hnt1)) as [I1 _]. apply I1; assumption.
+           destruct (IH (done ++ [c]) r1 ltac:(discriminate) Hfull1 (Hph1 Hnt1) Hb1) as [I1 _]. apply I1; assumption.
       * intros Hnt.
         destruct (run_steps_events fl ft (chunk_cmds p mt (c2 :: rest')) r1) as (l & El).
         assert (Hnt1 : no_through (d_events (rs_d r1))) by (rewrite El in Hnt; eapply nt_prefix; exact Hnt).
-        destruct (IH (done ++ [c]) r1 ltac:(discriminate) Hfull1 (Hph1 Hnt1)) as [_ I2]. apply I2. exact Hnt.
+        destruct (IH (done ++ [c]) r1 ltac:(discriminate) Hfull1 (Hph1 Hnt1) Hb1) as [_ I2]. apply I2. exact Hnt.
     + (* not executed: nothing mutating is executed after it either *)
+      rewrite (idle_chunk ft r cmd eq_refl) in Hd1.
       set (r1 := run_step fl ft r (DestCmd cmd)) in *.
       assert (Hdead : dead ft r1) by (apply chunk_skipped_dead; [reflexivity|exact E]).
       destruct (dead_frozen fl ft (chunk_cmds p mt (c2 :: rest')) r1 Hdead) as (F1 & F2 & F3).
@@ -520,6 +592,35 @@ Proof.
 Qed.
 
 End FileBlock.
+
+(* a file whose path lies at or below a failed deletion: every chunk command is refused, nothing moves *)
+Lemma chunk_cmds_shape p mt chunks s : In s (chunk_cmds p mt chunks) -> exists d smt more, s = DestCmd (CCreateOrUpdateFile p d smt more).
+Proof.
+  induction chunks as [|c rest IH]; [intros []|]. destruct rest as [|c2 rest'].
+  - intros [<-|[]]. eauto.
+  - change (chunk_cmds p mt (c :: c2 :: rest')) with (DestCmd (CCreateOrUpdateFile p c None true) :: chunk_cmds p mt (c2 :: rest')).
+    intros [<-|H]; [eauto|apply IH; exact H].
+Qed.
+
+Lemma blocked_steps fl ft p steps : (forall s, In s steps -> exists d smt more, s = DestCmd (CCreateOrUpdateFile p d smt more)) ->
+  forall r, blocked_at (rs_d r) p = true ->
+  (forall s, In s (steps_states fl ft r steps) -> s = rs_d r) /\ rs_d (run_steps fl ft r steps) = rs_d r.
+Proof.
+  induction steps as [|st rest IH]; intros Hall r Hb; [split; [intros s []|reflexivity]|].
+  change (run_steps fl ft r (st :: rest)) with (run_steps fl ft (run_step fl ft r st) rest). cbn [steps_states].
+  destruct (Hall st (or_introl eq_refl)) as (d & smt & more & ->).
+  assert (Hsame : rs_d (run_step fl ft r (DestCmd (CCreateOrUpdateFile p d smt more))) = rs_d r).
+  { rewrite run_step_d. destruct (executes ft r _) as [c0|] eqn:E; [|apply idle_chunk; reflexivity].
+    apply executes_some in E. inversion E; subst c0.
+    destruct (blocked_chunk_noop fl (rs_d r) p d smt more Hb) as [-> _]. reflexivity. }
+  destruct (IH (fun s H => Hall s (or_intror H)) (run_step fl ft r (DestCmd (CCreateOrUpdateFile p d smt more)))) as [I1 I2];
+    [rewrite Hsame; exact Hb|].
+  split; [|rewrite I2; exact Hsame].
+  intros s Hin. apply in_app_or in Hin as [Hin|Hin]; [|rewrite (I1 s Hin); exact Hsame].
+  unfold step_states in Hin. destruct (executes ft r _) as [c0|] eqn:E; [|destruct Hin].
+  apply executes_some in E. inversion E; subst c0.
+  destruct (blocked_chunk_noop fl (rs_d r) p d smt more Hb) as [_ Hcs]. rewrite Hcs in Hin. destruct Hin as [<-|[]]. reflexivity.
+Qed.
 
 (* ================= the whole plan ================= *)
 (* Generic form: any invariant of the destination that is kept by the single commands of the plan and by
@@ -531,6 +632,7 @@ Variable S : fs.                       (* the source *)
 Variable Inv : dstate -> Prop.
 Variable okc : cmd -> Prop.            (* the single commands the plan may contain *)
 Variable okf : path -> Z -> Prop.      (* the files the plan may transfer, with the time they are given *)
+Hypothesis Inv_fs : forall st st', d_fs st' = d_fs st -> Inv st -> Inv st'.     (* the invariant is about the tree *)
 Hypothesis Inv_cmd : forall st c, okc c -> is_chunk c = false -> Inv st -> Inv (fst (doer_exec fl st c)).
 Hypothesis Inv_file : forall st p mt full m s, okf p mt -> fget S p = Some (NFile m full) -> Inv st ->
   safe p mt full (fget (d_fs st) p) (d_fs st) s -> Inv s.
@@ -591,18 +693,29 @@ Proof.
       destruct c; try discriminate Hc; destruct Hin as [<-|[]]; exact HG1.
     + intros _. rewrite run_step_d. destruct (executes ft r (DestCmd c)) as [c0|] eqn:E.
       * apply executes_some in E. inversion E; subst c0. split; [exact HG1|left; rewrite Hopen; exact Ho].
-      * split; [exact HG|left; exact Ho].
+      * destruct (idle_same ft r (DestCmd c)) as (I1 & I2 & _).
+        split; [apply (Inv_fs (rs_d r)); [exact I1|exact HG]|left; rewrite I2; exact Ho].
   - (* a read on the source *)
     destruct (nt_dec (d_events (rs_d r))) as [Hnt|Hnt]; [|apply vacuous_after; exact Hnt].
     destruct (HJ Hnt) as [HG [Ho|Hd]]; [|apply dead_case; assumption].
     apply Goal_cons; [|apply IH|].
     + intros x Hin _. unfold step_states in Hin. rewrite executes_fetch in Hin. destruct Hin.
-    + intros _. rewrite run_step_d, executes_fetch. split; [exact HG|left; exact Ho].
+    + intros _. rewrite run_step_d, executes_fetch, idle_fetch. split; [exact HG|left; exact Ho].
   - (* the chunks of a file *)
     destruct (nt_dec (d_events (rs_d r))) as [Hnt|Hnt]; [|apply vacuous_after; exact Hnt].
     destruct (HJ Hnt) as [HG [Ho|Hd]]; [|apply dead_case; assumption].
+    destruct (blocked_at (rs_d r) p) eqn:Hb.
+    { (* the file lies at or below a failed deletion: nothing moves during its block *)
+      destruct (blocked_steps fl ft p (chunk_cmds p mt chunks) (chunk_cmds_shape p mt chunks) r Hb) as [K1 K2].
+      assert (HJ1 : GJ (run_steps fl ft r (chunk_cmds p mt chunks))).
+      { intros _. rewrite K2. split; [exact HG|left; exact Ho]. }
+      destruct (IH _ HJ1) as [G1 G2]. split.
+      - intros s Hin Hnts. rewrite steps_states_app in Hin. apply in_app_or in Hin as [Hin|Hin].
+        + rewrite (K1 s Hin). exact HG.
+        + apply G1; assumption.
+      - rewrite run_steps_app. exact G2. }
     assert (Hph : phase p (fget (d_fs (rs_d r)) p) (d_fs (rs_d r)) [] (rs_d r)) by (apply ph_start; auto).
-    destruct (file_block fl ft p mt (concat chunks) (d_fs (rs_d r)) chunks [] r Hne eq_refl Hph) as [B1 B2].
+    destruct (file_block fl ft p mt (concat chunks) (d_fs (rs_d r)) chunks [] r Hne eq_refl Hph Hb) as [B1 B2].
     assert (Hsg : forall s, safe p mt (concat chunks) (fget (d_fs (rs_d r)) p) (d_fs (rs_d r)) s -> Inv s).
     { intros s. apply (Inv_file (rs_d r) p mt (concat chunks) m s); assumption. }
     assert (HJ1 : GJ (run_steps fl ft r (chunk_cmds p mt chunks))).
@@ -650,7 +763,8 @@ Qed.
 Theorem plan_safe steps : plan_ok steps -> forall r, J r ->
   (forall s, In s (steps_states fl ft r steps) -> no_through (d_events s) -> Good s) /\ J (run_steps fl ft r steps).
 Proof.
-  intros Hp r HJ. apply (gplan_safe fl ft S Good any_cmd any_file); [| |exact Hp|exact HJ].
+  intros Hp r HJ. apply (gplan_safe fl ft S Good any_cmd any_file); [| | |exact Hp|exact HJ].
+  - intros st st' E HG q t d Hq. apply HG. rewrite <- E. exact Hq.
   - intros st c _ Hc HG q t d Hq. apply HG. apply (nonchunk_exec fl st c Hc). exact Hq.
   - intros st p mt full m s _ HS HG Hs. eapply safe_good; eauto.
 Qed.
